@@ -1581,6 +1581,11 @@ impl CanonicalizeContext {
 				return None;
 			}
 
+			let parent_name = name(&get_parent(leaf)).to_string();
+			if ELEMENTS_WITH_FIXED_NUMBER_OF_CHILDREN.contains(&parent_name) || parent_name == "mmultiscripts" {
+				return None;		// the sibling is a separate argument (numerator/denominator, base/script, ...) -- can't remove it
+			}
+
 			let following_sibling = as_element(following_siblings[0]);
 			if name(&following_sibling) != "mo" || as_text(following_sibling) != "|" {
 				return None
